@@ -742,6 +742,13 @@ def slice_C08(ctx):
             violations.append(viol(c, {k: v[1] for k, v in diffs.items()}, {k: v[0] for k, v in diffs.items()},
                                    "results differ from the same engine with all compile-time shortcuts switched off",
                                    None, same_as_model(code, model, c.cid)))
+    # class information for the attribution of known findings (only the violating cases)
+    if violations:
+        vc = [Case.from_json(v["case"], cid=str(i)) for i, v in enumerate(violations)]
+        sp = spec_match(vc)
+        for i, v in enumerate(violations):
+            s_ = sp.get(str(i), {})
+            v["spec"] = {k: s_.get(k) for k in ("V", "bf", "bok", "strict", "k1", "k2", "k3") if k in s_}
     return result(ctx, cases, dis, violations, nontrivial,
                   "four-way: code optimised / code unoptimised (hook constructor) / model optimised / model unoptimised; seeded random patterns x 4 inputs x 8 flag subsets, plus 9 heads x 14 repeats x 16 followers x 5 flag sets (leading literal / class / ^, X*Y with related and unrelated first sets incl. anchors, newlines and case variants) and long-minimum-length shapes; all five APIs compared",
                   {"distribution": dict(hist)})
